@@ -265,6 +265,9 @@ def run_shard(pid, tier, seed, shard, nshards, out):
         # workload with the emd logger set up (the 'emd' logger itself then works at DEBUG, console output to a null sink)
         setup_emd_logger()
         ctx.count('shards_with_logger_set_up')
+    if getattr(mod, 'SESSION_NOISE', False):
+        session_noise(ctx.rng)
+        ctx.count('shards_started_after_unrelated_session_activity')
     try:
         mod.run_shard(ctx)
     except WatchdogTimeout:
@@ -292,6 +295,42 @@ def setup_emd_logger(level='CRITICAL'):
     sys.stdout = _NullOut()
     try:
         emd.logger.set_up(level=level)
+    finally:
+        sys.stdout = old
+
+
+def session_noise(rng):
+    """Things an interactive session may have done before the calls under test: a private configuration object
+    customised in place (including its nested np.pad dictionaries) and never used, an unrelated container, a log call.
+    None of it may influence later calls that do not receive those objects."""
+    import numpy as np
+    from emd import sift as S, cycles as C
+    old = sys.stdout
+    sys.stdout = _NullOut()
+    try:
+        for name in ('sift', 'mask_sift'):
+            cfg = S.get_config(name)
+            cfg['extrema_opts/mag_pad_opts/stat_length'] = int(rng.integers(2, 6))
+            cfg['extrema_opts/mag_pad_opts/mode'] = ['mean', 'maximum', 'minimum'][int(rng.integers(3))]
+            cfg['extrema_opts']['loc_pad_opts']['reflect_type'] = 'odd'
+            cfg['imf_opts/sd_thresh'] = float(rng.uniform(.2, .5))
+            cfg['imf_opts']['stop_method'] = 'rilling'
+            cfg['envelope_opts/interp_method'] = 'mono_pchip'
+            cfg['extrema_opts/pad_width'] = 4
+            # ... and any mutable value the configuration hands out is edited in place, as `cfg[...][0] = v` would
+            def scribble(d):
+                for k in list(d.keys()):
+                    v = d[k]
+                    if isinstance(v, dict):
+                        scribble(v)
+                    elif isinstance(v, list) and v:
+                        v[0] = type(v[0])(v[0] * 7 + 1) if isinstance(v[0], (int, float)) else v[0]
+                        v.append(v[0])
+                    elif isinstance(v, np.ndarray) and v.size and v.flags.writeable:
+                        v += 1
+            scribble(cfg)
+        ph = np.mod(np.cumsum(rng.uniform(.2, .5, 200)), 2 * np.pi)
+        C.Cycles(ph).compute_cycle_timings()
     finally:
         sys.stdout = old
 
